@@ -134,6 +134,10 @@ def main(ctx):
     for a in (["--init=Init", "--inv=IndInv", "--length=0"], ["--init=IndInit", "--inv=IndInv", "--length=1"],
               ["--init=IndInit", "--inv=NothingLostAtEnd", "--length=0"]):
         ctx.apalache("ReseqInd.tla", a)
+    # unbounded in the number of batches as well: TLAPS proof of the same invariant for every natural n, bound to
+    # Writer.tla by a refinement checked by TLC (WriterReseq)
+    ctx.tlapm("ReseqProofs.tla", needs=("ReseqProof.tla",))
+    ctx.tlc_model("WriterReseq", "WriterReseq_thorough.cfg" if thorough else "WriterReseq_quick.cfg", timeout=900)
     ncases = sum(1 for _ in open(cases))          # up to 2.8 M lines in thorough: counted, not loaded
     ctx.expect_vacuity("exported writer histories", ncases)
     ctx.extra["exported_cases"] = ncases
